@@ -33,6 +33,8 @@ from c06 import (BOUND_SLACK, DYADIC_THRS, HALF, REFINE_TOL, TORCH_DTYPE, DTYPE_
 THEOREMS = [
     "SleapVerif.C07.global_attains_max",
     "SleapVerif.C07.global_first_max",
+    "SleapVerif.C07.global_unravel_exact",
+    "SleapVerif.C07.global_rough_strict_max",
     "SleapVerif.C07.global_attains_max_counterexample",
     "SleapVerif.C07.global_threshold",
     "SleapVerif.C07.global_channel_independent",
@@ -614,6 +616,60 @@ def oracle_bump(np, a2, g, f, t, p, dtype="f32"):
     return list(obs.values()), sigs, inside, e0, e1, sorted(obs)
 
 
+# (h, w, hot row, hot col): more than 2^24 cells, the hot cell at an odd flat index above 2^24; the first two are LAST cells
+LARGE_MAPS = [(4100, 4100, 4099, 4099), (1, 16777300, 0, 16777299), (5000, 3400, 4990, 3333), (4097, 4099, 4094, 4001)]
+
+
+def large_map_cases(chk, I, n, picks=None, value=None):
+    """Maps with MORE THAN 2^24 cells (a float32 cannot hold their flat indices): a zero float32 map with one hot cell through
+    the real find_global_peaks_rough and find_global_peaks (None / integral).  Model side: exact Nat arithmetic
+    (`Peaks.unravel`, theorems global_unravel_exact / global_rough_strict_max — no size bound).  Oracle (model-free): the
+    reported cell is the only non-zero cell and the value is its value.  One ~67 MB tensor at a time, freed after use."""
+    import gc
+    torch = I.torch
+    rng = chk.rng
+    if picks is None:
+        picks = LARGE_MAPS[:n] if n >= len(LARGE_MAPS) else rng.sample(LARGE_MAPS, n)
+    model = run_driver("C07.lean", [f"unravel {w} {r * w + col}" for (h, w, r, col) in picks])
+    for (h, w, r, col), ml in zip(picks, model):
+        mx, my = (int(t) for t in ml.split())
+        val = value if value is not None else rng.choice([1.0, 0.75, 0.5])
+        spec = {"family": "large_map", "h": h, "w": w, "hot_row": r, "hot_col": col, "hot_value": val,
+                "flat_index": r * w + col, "dtype": "f32", "thr": 0.25}
+        cms = torch.zeros((1, 1, h, w), dtype=torch.float32)
+        cms[0, 0, r, col] = val
+        got = {}
+        try:
+            for name, fn, kw in (("find_global_peaks_rough", I.pf.find_global_peaks_rough, {}),
+                                 ("find_global_peaks(None)", I.pf.find_global_peaks, {"refinement": None}),
+                                 ("find_global_peaks(integral,5)", I.pf.find_global_peaks, {"refinement": "integral", "integral_patch_size": 5})):
+                res = call(fn, cms, threshold=0.25, **kw)
+                got[name] = ("raise",) + res[1:] if res[0] == "raise" else [float(res[1][0][0, 0, 0]), float(res[1][0][0, 0, 1]), float(res[1][1][0, 0])]
+        finally:
+            del cms
+            gc.collect()
+        chk.case(("large_map", h, w, r, col), {"case": "large_map", **spec, "impl": got, "model": ml}, tags=["large_map_cells>2^24"])
+        for name, g in got.items():
+            if "integral" in name and max(h, w) > 2 ** 22:
+                # OUT OF DOMAIN, recorded not judged: a refined (sub-pixel) float32 coordinate needs the side to stay below 2^22;
+                # at x = 16777299 neither the box corners x -+ 2 nor the result are representable and kornia returns NaN
+                chk.extra.setdefault("out_of_domain", {})[f"{name} on a {h}x{w} one-hot map (side > 2^22)"] = str(g)
+                continue
+            if g and g[0] == "raise":
+                chk.disagree(f"{name} raises on a {h}x{w} map where the model does not", spec, str(g), ml)
+                fail(chk, f"C07: {name} raised on a {h}x{w} one-hot map", spec, str(g))
+                continue
+            x, y, v = g
+            # float32 output: integers above 2^24 are not all representable; one ulp is the tolerance
+            k_ulp = 4.0 if "integral" in name else 1.0  # the refined point adds a float32 offset computed by kornia's crop
+            tolx, toly = max(1e-3, k_ulp * mx * 2.0 ** -23), max(1e-3, k_ulp * my * 2.0 ** -23)
+            if not (abs(x - mx) <= tolx and abs(y - my) <= toly and v == val):
+                chk.disagree(f"{name} on a map with > 2^24 cells == Peaks.unravel", spec, [x, y, v], [mx, my, val])
+            if not (abs(x - col) <= tolx and abs(y - r) <= toly and v == val):
+                fail(chk, f"C07 fails on {name}: the only non-zero cell of a {h}x{w} map is (x={col}, y={r}) holding {val}, "
+                          f"reported ({x}, {y}) with value {v}", spec, [x, y, v])
+
+
 def witness_case(wt):
     m = [[0.0] * wt["w"] for _ in range(wt["h"])]
     for (x, y, v) in wt["cells"]:
@@ -703,6 +759,7 @@ def main(chk: Check):
         cases.append(gen_gauss_case(rng))
 
     half_refine_probe(chk, torch, I.pf.find_global_peaks, "find_global_peaks")
+    large_map_cases(chk, I, chk.n(2, 4))
     lines = [model_line(c, I.tensor(c)) for c in cases]
     out = run_driver("C07.lean", lines)
     for c, m in zip(cases, out):
@@ -713,6 +770,9 @@ def replay(chk: Check, payload):
     import_repo()
     I = Impl()
     case = payload.get("case") or payload["disagreements"][0]["case"]
+    if case.get("family") == "large_map":
+        large_map_cases(chk, I, 1, picks=[(case["h"], case["w"], case["hot_row"], case["hot_col"])], value=case.get("hot_value"))
+        return
     if "maps" not in case:
         print("replay: case is not a map case:", case)
         return
@@ -747,11 +807,16 @@ if __name__ == "__main__":
             "cells, beyond the dtype's exact-integer range); the model is dtype-agnostic (runs on the exact values): comparisons are "
             "exact in the map's own dtype, coordinates are float32 integers, values keep the map's dtype; thresholds dyadic except "
             "0.1 / 0.2 with float32 maps",
-            "EXCLUDED REGION (finding F-C06half, repair offered in fixes/C07-half-precision-crop.patch): integral refinement of float16/bfloat16 "
-            "maps. ~60 % of the half-precision cases keep their patch size: correspondence and oracles run on the identical values as "
-            "float32, then the half-precision call is compared with that answer peak by peak (half-precision tolerance, knife-edges "
-            "skipped); a raise / NaN / discrepancy carries the effect-based signature half_precision_crop. The fixed outcome probe "
-            "stays in evidence.out_of_domain",
+            "half-precision maps + integral refinement: since 327aafb crop_bboxes crops float16/bfloat16 maps in float32 (finding F-C06half, "
+            "FIXED; the pre-fix behaviour is a regression record: witness replayed every run). ~60 % of the half-precision cases keep their "
+            "patch size: correspondence and oracles run on the identical values as float32, then the half-precision call must agree with "
+            "that answer peak by peak (half-precision tolerance: integral_regression still runs in the map's dtype; knife-edges skipped); "
+            "a raise / NaN / discrepancy is a violation (signature half_precision_crop, no longer suppressed)",
+            "maps with more than 2^24 cells: 2 (quick) / 4 (thorough) one-hot float32 maps (4100x4100, 1x16777300, 5000x3400, 4097x4099; hot "
+            "cell at an odd flat index above 2^24, incl. the last cell) through find_global_peaks_rough / find_global_peaks(None, integral); "
+            "model side exact Nat div/mod (Peaks.unravel, global_unravel_exact, global_rough_strict_max); float32 output coordinates are "
+            "compared within one ulp (4 ulps for the refined point); integral refinement is judged only for sides <= 2^22 (sub-pixel float32 "
+            "coordinates; the 1x16777300 map returns NaN there on the unchanged tree: recorded in evidence.out_of_domain)",
             "refinement bound proved for non-negative maps / positive threshold only (F-C06 applies here too); negative patches sampled "
             "every run with the oracle (excluded_region_cases) — search, not proof",
             "toward-centre / symmetric-unmoved are theorems for patches inside the map; the unrestricted statement is false "
